@@ -227,10 +227,10 @@ func buildClass(class string, gossip bool) (*built, error) {
 		}
 		return cl.IndexOf(vs.GetProposer().Address)
 	}
-	p10, p11, p20 := prop(1, 0), prop(1, 1), prop(2, 0)
+	p10, p11, p20, p30 := prop(1, 0), prop(1, 1), prop(2, 0), prop(3, 0)
 	b.target = -1
 	for i := range cl.Nodes {
-		if i != p10 && i != p11 && i != p20 {
+		if i != p10 && i != p11 && i != p20 && (class != "h3-pruned" || i != p30) {
 			b.target = i
 			break
 		}
@@ -245,19 +245,45 @@ func buildClass(class string, gossip bool) (*built, error) {
 		h, final = 2, p20
 	case "h1-r1-propose":
 		final = p11
+	case "h3-pruned":
+		h, final = 3, p30
 	}
 	b.others = []int{final}
 	for _, i := range b.except(b.target, final) {
 		b.others = append(b.others, i)
+	}
+	if class == "h1-r1-propose" { // [proposer of round 1, the fourth validator, proposer of round 0]
+		b.others = append([]int{p11}, b.except(b.target, p11, p10)...)
+		b.others = append(b.others, p10)
 	}
 	if err := b.attachReactor(gossip); err != nil {
 		return nil, err
 	}
 	T := b.target
 	X, Y, Z := b.others[0], b.others[1], b.others[2]
+	if class == "h1-r1-propose" {
+		if err := b.nilRound(p10); err != nil {
+			return nil, err
+		}
+		if f := b.node().Failure; f != nil {
+			return nil, fmt.Errorf("target failed while building %s: %v", class, f)
+		}
+		return b, nil
+	}
 	for k := uint64(1); k <= h; k++ {
 		if err := b.othersCommit(k); err != nil {
 			return nil, err
+		}
+	}
+	for k := uint64(1); h == 3 && k <= 2; k++ { // (gossip phase only) the target commits heights 1 and 2
+		if err := b.fire(T, cstypes.RoundStepNewHeight); err != nil {
+			return nil, err
+		}
+		if err := b.feed(k, func(cluster.MsgDesc) bool { return true }); err != nil {
+			return nil, err
+		}
+		if got := b.node().App.Height(); got != k {
+			return nil, fmt.Errorf("target did not commit height %d (state %s)", k, b.state().VerifString())
 		}
 	}
 	if h == 2 { // the target commits height 1 from the others' messages
@@ -278,9 +304,16 @@ func buildClass(class string, gossip bool) (*built, error) {
 	switch class {
 	case "h1-newheight", "h2-newheight":
 		// as it is
-	case "h1-propose", "h2-propose", "h1-stalled":
+	case "h1-propose", "h2-propose", "h1-stalled", "h3-pruned":
 		if err := b.fire(T, cstypes.RoundStepNewHeight); err != nil {
 			return nil, err
+		}
+		if class == "h3-pruned" {
+			// what BlockStore.DeleteHistoricalData(keep_latest_blocks = 1) leaves of height 1: nothing
+			m := b.node().Mock
+			delete(m.Blocks, 1)
+			delete(m.Parts, 1)
+			delete(m.Commits, 1)
 		}
 		if class == "h1-stalled" {
 			// thirteen minutes without a block: the state the recover path of setProposal looks at
@@ -328,26 +361,6 @@ func buildClass(class string, gossip bool) (*built, error) {
 		if err := b.feed(h, func(d cluster.MsgDesc) bool { return d.T == "pc" }); err != nil {
 			return nil, err
 		}
-	case "h1-r1-propose":
-		if err := b.fire(T, cstypes.RoundStepNewHeight); err != nil {
-			return nil, err
-		}
-		if err := b.fire(T, cstypes.RoundStepPropose); err != nil {
-			return nil, err
-		}
-		if err := b.popTarget(); err != nil { // own nil prevote
-			return nil, err
-		}
-		for _, i := range []int{X, Y} {
-			if err := b.give(&cs.VoteMessage{Vote: b.vote(i, types.VoteTypePrevote, nilID)}, i); err != nil {
-				return nil, err
-			}
-		}
-		for _, i := range []int{X, Y} { // own nil precommit is out after the nil polka
-			if err := b.give(&cs.VoteMessage{Vote: b.vote(i, types.VoteTypePrecommit, nilID)}, i); err != nil {
-				return nil, err
-			}
-		}
 	default:
 		return nil, fmt.Errorf("unknown class %s", class)
 	}
@@ -355,6 +368,62 @@ func buildClass(class string, gossip bool) (*built, error) {
 		return nil, fmt.Errorf("target failed while building %s: %v", class, f)
 	}
 	return b, nil
+}
+
+// nilRound runs an honest nil round 0 at height 1 with all four validators: the proposer's
+// proposal, parts and prevote are lost in the network, everybody else times out and votes nil;
+// the round-1 proposer's proposal stays in its queue (it is slow).
+func (b *built) nilRound(p10 int) error {
+	all := b.cl.Correct()
+	for _, i := range all {
+		if err := b.fire(i, cstypes.RoundStepNewHeight); err != nil {
+			return err
+		}
+	}
+	for { // the proposer handles its own proposal, parts and prevote; nobody else gets them
+		if _, ok := b.cl.PopInternal(p10); !ok {
+			break
+		}
+	}
+	round := func(typ string) error {
+		var out []cluster.WireMsg
+		for _, i := range all {
+			for {
+				m, ok := b.cl.PopInternal(i)
+				if !ok {
+					break
+				}
+				out = append(out, cluster.WireMsg{From: i, Msg: m})
+			}
+		}
+		for _, w := range out {
+			if d := b.cl.Describe(w.Msg, w.From); d.T != typ || d.B != "nil" {
+				if w.From == p10 && d.T == typ {
+					continue // cannot happen for prevotes (already popped); precommits of the proposer are nil too
+				}
+				return fmt.Errorf("nil round: unexpected message %+v from node %d", d, w.From)
+			}
+			for _, j := range all {
+				if j != w.From {
+					if e := b.cl.Deliver(j, w.Msg, w.From); e.Fail != "" {
+						return fmt.Errorf("nil round: node %d failed: %s", j, e.Fail)
+					}
+				}
+			}
+		}
+		return nil
+	}
+	for _, i := range all {
+		if i != p10 {
+			if err := b.fire(i, cstypes.RoundStepPropose); err != nil {
+				return err
+			}
+		}
+	}
+	if err := round("pv"); err != nil {
+		return err
+	}
+	return round("pc")
 }
 
 // wantFacts is the class table of the specification in harness terms (checked against the
